@@ -926,6 +926,13 @@ class FirstPossibleRng:
                 return it
         raise ValueError("probabilities do not sum to 1")
 
+    # a pick computed from a uniform draw (inverse-CDF sampling): the smallest draw selects the first option of positive probability
+    def random(self, size=None):
+        return 0.0
+
+    def uniform(self, low=0.0, high=1.0, size=None):
+        return low
+
 
 def generate_twin_first(g, skel):
     """an earlier generation, in the same process, of a notation that differs only in the entries of a transition list"""
